@@ -60,7 +60,11 @@ def one_config(job):
             kept = np.zeros(N, dtype=bool)
             kept[np.flatnonzero(h)[np.asarray(g.volume_mask)]] = True
             beta = np.full(N, 0.0); theta = np.full(N, 0.0); path = np.full(N, 0.0)
-            beta[kept], theta[kept], path[kept] = g.beta_rad(), g.thetas(), g.pathLens()
+            acc = [np.atleast_1d(np.asarray(x, dtype=float)) for x in (g.beta_rad(), g.thetas(), g.pathLens())]
+            for x in acc:
+                ev.append({"kind": "ret", "nkept": int(kept.sum()), "nret": int(len(x)), "_m": dict(meta0, entry=entry + " accessors")})
+            if all(len(x) == int(kept.sum()) for x in acc):
+                beta[kept], theta[kept], path[kept] = acc
             for i in range(N):
                 ev.append({"kind": "inst", "k": int(i), "N": N, "T": bits(t.source_obst), "tsec": bits(tsec[i]), "alt": bits(alt_h[i]),
                            "H": bits(H), "R": bits(R), "limb": bits(cfg.simulation.angle_from_limb), "kept": bool(kept[i]),
@@ -77,6 +81,21 @@ def one_config(job):
                        "moonCut": bits(sm.moon_alt_cut), "minPhase": bits(sm.moon_min_phase_angle_cut), "dark": bool(dark[i]),
                        "_m": dict(meta0, k=int(i), sun_deg=float(np.degrees(sa[i])), moon_deg=float(np.degrees(ma[i])),
                                   phase_deg=float(np.degrees(ph[i])), dark=bool(dark[i]))})
+    if job.get("long_sky"):
+        # one dark-sky evaluation over an array of more than 4096 instants (the cut must be evaluated at EVERY event time)
+        nlong = job["long_sky"]
+        off = np.sort(rng.uniform(0.0, t.source_obst, nlong))
+        tl = sky.times_of(t.source_date, t.source_date_format, off)
+        sa, ma, ph = sky.sun_moon(ip.latitude, ip.longitude, ip.altitude, tl)
+        dark = np.atleast_1d(g.too_source.sun_moon_cut(tl))
+        idx = sorted(set(list(range(0, nlong, max(1, nlong // 60))) + list(range(nlong - 25, nlong)) + [4095, 4096, 4097]))
+        for i in idx:
+            ev.append({"kind": "sky", "sunAlt": bits(sa[i]), "moonAlt": bits(ma[i]), "phase": bits(ph[i]), "sunCut": bits(sm.sun_alt_cut),
+                       "moonCut": bits(sm.moon_alt_cut), "minPhase": bits(sm.moon_min_phase_angle_cut),
+                       "dark": bool(dark[i]) if i < len(dark) else False,
+                       "_m": dict(meta0, k=int(i), long_array=nlong, sun_deg=float(np.degrees(sa[i])), moon_deg=float(np.degrees(ma[i])),
+                                  phase_deg=float(np.degrees(ph[i])))})
+        ev.append({"kind": "ret", "nkept": nlong, "nret": int(len(dark)), "_m": dict(meta0, entry="sun_moon_cut over a long array")})
     return ev
 
 
@@ -84,7 +103,8 @@ def run(tier="quick", seed=0):
     pr = PropertyRun("C13", tier, seed)
     thorough = tier == "thorough"
     pr.model_check("MCGeomTarget", workers=16, timeout=900)
-    jobs = [{"seed": seed * 1000 + j, "nconf": 12 if thorough else 3, "ninst": 400 if thorough else 150} for j in range(28 if thorough else 14)]
+    jobs = [{"seed": seed * 1000 + j, "nconf": 12 if thorough else 3, "ninst": 400 if thorough else 150,
+             "long_sky": (9000 if thorough else 4500) if j < (4 if thorough else 2) else 0} for j in range(28 if thorough else 14)]
     res = par.pmap(one_config, jobs, workers=14)
     ev = [e for r in res for e in r]
     pr.validate("TraceGeomTarget", ev, name="target-geometry", chunks=16)
